@@ -117,6 +117,13 @@ class Interp(StmtMixin, ExtMixin, OpsMixin, InterpCore):
         return g.value, g.events
 
     def as_iterable(self, v, node=None):
+        if isinstance(v, SymIterV):
+            if v.used:
+                raise AnalysisError("a symbolic iterator is consumed twice")
+            v.used = True
+            return v.seq
+        if isinstance(v, SeqV) and v.kind in ("rows", "rowstrings"):
+            return v
         if self.is_listlike(v) and v.ci.lookup("__iter__") is None:
             return self.hidden_list(v)
         if isinstance(v, PyObjV) and hasattr(v.obj, "iter_items"):
@@ -135,7 +142,66 @@ class Interp(StmtMixin, ExtMixin, OpsMixin, InterpCore):
             return StmtMixin.as_iterable(self, val, node)
         return StmtMixin.as_iterable(self, v, node)
 
+    # "rows" sequences: consecutive groups of K elements of a symbolic sequence X ------------------------------------
+    #   [X[i:i+K] for i in range(0, len(X), K)]   (last group may be short: flush)
+    #   zip(it, it, ..., it) with one iterator `it = iter(X)` K times   (an incomplete last group is dropped)
+    def rows_spec(self, rows, node):
+        var, lo, hi, elem, seqv = self.loop_binder(rows.base, node)
+        return {"per": rows.per, "elem": elem, "append_stmt": None, "if_stmt": None, "remainder": False, "list": None, "node": None,
+                "emitted_in": None, "placeholder": None, "var": var, "lo": lo, "hi": hi, "seqv": seqv, "flush": rows.flush}
+
+    def rows_chunk(self, spec, node_, at):
+        row = self.chunk_row(spec, self.expand_row(spec, node_, at), at)
+        sv = spec["seqv"]
+        c = SChunk(spec["var"], spec["lo"], spec["hi"], row["item"], spec["per"], row["sep"], row["end"], spec["flush"],
+                   seq=sv.key() if sv is not None else None)
+        c.prefix = row["prefix"]
+        return c
+
+    def for_over_rows(self, st, rows, env):
+        spec = self.rows_spec(rows, st)
+        cl = ChunkListV(spec)
+        self.assign(st.target, cl, env)
+        marks = dict((id(b), (b, len(b.pieces))) for b in self.live_buffers())
+        lmarks = dict((id(l), (l, len(l.items), len(getattr(l, "tail", None) or []))) for l in self.live_lists(env))
+        self.event_stack.append([])
+        try:
+            try:
+                self.exec_block(st.body, env)
+            except ContinueSignal:
+                pass
+        finally:
+            evs = self.event_stack.pop()
+            spec["remainder"] = True
+        if evs:
+            self.log_event(("loop", evs))
+        for b, n0 in marks.values():
+            new = b.pieces[n0:]
+            if new:
+                del b.pieces[n0:]
+                b.pieces.append(self.rows_chunk(spec, SCat(new), st))
+        for l, n_items, n_tail in lmarks.values():
+            tail = getattr(l, "tail", None) or []
+            new = list(l.items[n_items:]) if not n_tail and not tail else []
+            newt = tail[n_tail:]
+            if new:
+                del l.items[n_items:]
+            if newt:
+                del tail[n_tail:]
+                for t in newt:
+                    if isinstance(t, ListV) and not getattr(t, "tail", None):
+                        new.extend(t.items)
+                    else:
+                        self.err(st, "list built in a loop over row groups in a way that is not modelled")
+            for it in new:
+                if not is_strlike(it):
+                    self.err(st, "a loop over row groups collects something that is not a string")
+                tl = l.__dict__.setdefault("tail", [])
+                tl.append(SeqV("rowstrings", spec=spec, node=to_node(it)))
+
     def run_for(self, st, it, env):
+        if isinstance(it, SeqV) and it.kind == "rows":
+            return self.for_over_rows(st, it, env)
         if isinstance(it, GenV) and it.consumed:
             return
         if isinstance(it, GenV) and len(self.loop_stack) > it.born:
@@ -291,6 +357,59 @@ class Interp(StmtMixin, ExtMixin, OpsMixin, InterpCore):
             for nm in names:
                 env.vars.pop(nm, None)
         return True
+
+    def comprehension(self, node, env, kind):
+        if kind == "list" and len(node.generators) == 1 and not node.generators[0].ifs:
+            g = node.generators[0]
+            # [X[i:i+K] for i in range(0, len(X), K)]
+            fake = ast.For(target=g.target, iter=g.iter, body=[ast.Expr(value=node.elt)], orelse=[])
+            ast.copy_location(fake, node)
+            ast.fix_missing_locations(fake)
+            if isinstance(node.elt, ast.Subscript) and isinstance(g.iter, ast.Call):
+                sl = self.match_slice_rows(fake, env)
+                if sl is not None and len(sl[2]) == 1 and sl[2][0] is node.elt:
+                    return SeqV("rows", base=sl[0], per=sl[1], flush=True)
+            it = self.eval(g.iter, env)
+            if isinstance(it, SeqV) and it.kind == "rows":
+                spec = self.rows_spec(it, node)
+                sub = Env(parent=env, label=env.label)
+                self.assign(g.target, ChunkListV(spec), sub)
+                self.event_stack.append([])
+                try:
+                    elt = self.eval(node.elt, sub)
+                finally:
+                    evs = self.event_stack.pop()
+                    spec["remainder"] = True
+                if evs:
+                    self.log_event(("loop", evs))
+                if not is_strlike(elt):
+                    self.err(node, "comprehension over row groups does not build strings")
+                return self._rowstrings_list(spec, elt)
+            seq = self.as_iterable(it, node)
+            return self._comp_over(seq, node, g, env, kind)
+        return OpsMixin.comprehension(self, node, env, kind)
+
+    def _rowstrings_list(self, spec, elt):
+        out = ListV([], "list")
+        out.tail = [SeqV("rowstrings", spec=spec, node=to_node(elt))]
+        return out
+
+    def x_iter(self, args, kwargs, node, env):
+        v = self.as_iterable(args[0], node)
+        if isinstance(v, SeqV) and v.kind in ("family", "seqmap", "opaque"):
+            return SymIterV(v)
+        return ExtMixin.x_iter(self, [v], kwargs, node, env)
+
+    def x_zip(self, args, kwargs, node, env):
+        if len(args) >= 2 and all(isinstance(a, SymIterV) for a in args) and all(a is args[0] for a in args):
+            it = args[0]
+            if it.used:
+                self.err(node, "a symbolic iterator is consumed twice")
+            it.used = True
+            return SeqV("rows", base=it.seq, per=len(args), flush=False)
+        if any(isinstance(a, SymIterV) for a in args):
+            self.err(node, "zip over a symbolic iterator")
+        return ExtMixin.x_zip(self, args, kwargs, node, env)
 
     def match_slice_rows(self, st, env):
         it = st.iter
@@ -607,6 +726,16 @@ class MatchModel(object):
 
     def m_group(self, I, args, kwargs):
         return Const(self.m.group(int(args[0].const()) if args else 0))
+
+
+class SymIterV(V):
+    """iter(X) for a symbolic sequence X: only draining it in one go (or the zip(it, ..., it) grouper) is modelled"""
+    def __init__(self, seq):
+        self.seq = seq
+        self.used = False
+
+    def key(self):
+        return ("symiter", id(self))
 
 
 class GenV(V):
